@@ -9,23 +9,26 @@ CONSTANTS NMods, Choices, Splits,
 VARIABLES assign, split, scen
 
 E(par, prop, form, ty, n) == [par |-> par, prop |-> prop, form |-> form, v |-> [ty |-> ty, n |-> n, m |-> 0]]
-Base == {E("mp", "value", "B", "int", 6), E("n", "value", "B", "int", 10)}
+Req2 == {E("r1", "value", "B", "int", 4), E("r2", "value", "B", "int", 6)}       \* required although defaults exist
+Base == {E("mp", "value", "B", "int", 6), E("n", "value", "B", "int", 10)} \cup Req2
 MP == E("mp", "value", "B", "int", 6)
 NodeCfgs == <<
-  {MP, E("n", "value", "B", "float", 13), E("a", "value", "P", "int", 100)},      \* 1 healthy, writes a and n; the driver
+  Req2 \cup {MP, E("n", "value", "B", "float", 13), E("a", "value", "P", "int", 100)},      \* 1 healthy, writes a and n; the driver
                                                                                   \*   refuses n = 6.5 (still exactly once)
-  {MP, E("n", "value", "B", "float", 15), E("export", "value", "B", "bool", 0),    \* 2 healthy, not exported, driver bug on n,
+  Req2 \cup {MP, E("n", "value", "B", "float", 15), E("export", "value", "B", "bool", 0),    \* 2 healthy, not exported, driver bug on n,
    E("a", "max", "P", "int", 120), E("b", "value", "B", "int", 10),                \*   limit overrides; the
              E("s", "value", "P", "str", 24), E("s", "max", "P", "int", 64)},       \*   string only fits the overridden maxchars
   Base \cup {E("a", "value", "B", "int", 300)},                                   \* 3 outside (loose)
   Base \cup {E("a", "value", "B", "str", 0)},                                     \* 4 wrong type
   Base \cup {E("zz", "value", "B", "int", 2), E("a", "foo", "P", "int", 2)},       \* 5 two errors
-  {E("n", "value", "B", "int", 10)},                                              \* 6 missing mandatory
+  Req2 \cup {E("n", "value", "B", "int", 10)},                                    \* 6 missing mandatory
   Base \cup {E("a", "min", "P", "int", 160), E("a", "max", "P", "int", 40)},       \* 7 inverted limits
   Base \cup {E("c", "foo", "P", "int", 2)},                                       \* 8 unknown command property
-  {E("mp", "value", "B", "int", 6)},                                              \* 9 missing needscfg value
-  Base \cup {E("ou", "value", "B", "int", 6), E("oi", "value", "B", "int", 10)} >>  \* 10 entry for an optional accessible
+  Req2 \cup {E("mp", "value", "B", "int", 6)},                                    \* 9 missing needscfg value
+  Base \cup {E("ou", "value", "B", "int", 6), E("oi", "value", "B", "int", 10)},   \* 10 entry for an optional accessible
                                                                                   \*    the class does not implement
+  {MP, E("n", "value", "B", "int", 10), E("r2", "value", "B", "int", 6),           \* 11 required value missing, only
+   E("r1", "default", "P", "int", 6)} >>                                          \*    a default given
 Name(k) == "m" \o ToString(k)
 (* how the modules are served: all polled / unpolled, unpolled on an io, polled / on io, polled by io, unpolled *)
 KindVecs == << <<"polled", "polled", "polled">>, <<"unpolled", "onio", "polled">>, <<"onio", "pio", "unpolled">>,
